@@ -136,6 +136,7 @@ type Sim struct {
 	pctChange   []int64
 	lockOrder   uint64
 	boltMu      Mutex
+	preemptedTx bool  // a bolt transaction body started goroutines and became preemptible
 	BlockedRW   int64 // probe: RLock blocked by a pending writer
 	BlockedLock int64 // probe: Lock/RLock had to wait
 	ChanOps     int64 // probe: real channel operations bracketed by ChanBegin/ChanEnd
@@ -218,7 +219,7 @@ func (s *Sim) Spawn(name string, f func()) *Task {
 		s.byGID[t.gid] = t
 		s.gidMu.Unlock()
 		<-t.wake
-	atomic.StoreInt32(&t.waking, 0)
+		atomic.StoreInt32(&t.waking, 0)
 		atomic.StoreInt32(&t.waking, 0)
 		if !s.aborted {
 			func() {
@@ -964,6 +965,11 @@ func (o *Once) Do(f func()) {
 	}
 }
 
+// PreemptedTx reports whether a bolt transaction body of this run started
+// goroutines of its own (and so ran partly on a helper goroutine the scheduler
+// does not own: such runs do not re-execute identically).
+func (s *Sim) PreemptedTx() bool { return s.preemptedTx }
+
 // Go replaces the go statement: inside a simulation the function becomes a
 // new task; outside it is a plain goroutine.
 func Go(f func()) {
@@ -979,6 +985,13 @@ func Go(f func()) {
 			f()
 		}()
 		return
+	}
+	// A bolt transaction body is one scheduling step - until it starts
+	// goroutines of its own and waits for them: from then on it is preemptible
+	// like any other code (bbolt's own versioning keeps its view consistent).
+	if s.cur.noPreempt > 0 {
+		s.cur.noPreempt = 0
+		s.preemptedTx = true
 	}
 	t := s.Spawn("go", f)
 	_ = t
@@ -1058,6 +1071,14 @@ func BoltTx(write bool, f func() error) error {
 		}
 		return r.err
 	case <-time.After(BoltTxLimit):
+		if s.preemptedTx {
+			// A transaction of this run started goroutines of its own and was
+			// descheduled while it was open; bbolt's locks are real, so another
+			// transaction may be waiting for one that the scheduler has parked.
+			// That wait is the simulator's doing: no verdict.
+			s.abortNow("artifact", "a bolt transaction waits inside bbolt while another transaction, whose body runs goroutines of its own, is descheduled: the simulator cannot interleave inside bbolt")
+			return nil
+		}
 		s.abortNow("wedged", "a bolt transaction did not finish: it waits for a lock inside bbolt that is never released (a transaction left open?)")
 		return nil
 	}
